@@ -19,7 +19,7 @@ head = subprocess.run(['git', '-C', '/repo', 'rev-parse', 'HEAD'], capture_outpu
 
 
 def worker(k):
-    w = os.path.join(SCR, 'benign-%d' % k)
+    w = os.path.join(SCR, 'benign-%d-%d' % (os.getpid(), k))
     if not os.path.isdir(w):
         os.makedirs(SCR, exist_ok=True)
         subprocess.run(['git', '-C', '/repo', 'worktree', 'add', '--detach', w, 'HEAD', '-q'], check=True)
